@@ -127,6 +127,13 @@ pub fn gen_c02(rng: &mut Rng, _i: u64, tier: Tier) -> Script {
     if s.c("driver") == 1 && rng.chance(1, 12) {
         s.set("putfail", rng.range(1, 4) as i64);
     }
+    if !heavy && n <= 2000 && rng.chance(1, 8) {
+        // constant tiny grant for every call of the Finish loop (family "every output size")
+        s.set("tail_out", rng.range(1, 64) as i64);
+        if rng.chance(1, 2) {
+            s.ops.clear();
+        }
+    }
     s.set_blob("plain", plain);
     s
 }
